@@ -20,7 +20,7 @@ OPS = [
     "sum_bad", "cast", "cast_bad", "shares", "getitem", "getitem_bad", "setitem_arr", "setitem_arr_bad", "setitem_num",
     "setitem_nd", "setall_nd_bad", "set_values", "set_values_bad", "set_values_arr", "set_values_num", "inplace",
     "cumsum_bad", "copy", "split", "stack", "from_df", "set_df_bad", "stock", "stock_bad", "to_stock_type",
-    "set_values_bad", "setall_nd_bad", "new_bad", "other_len", "other_len", "inplace_bad", "inplace_bad", "apply_fn", "apply_fn", "unary",
+    "set_values_bad", "setall_nd_bad", "new_bad", "other_len", "other_len", "inplace_bad", "inplace_bad", "apply_fn", "apply_fn", "unary", "dup_letters", "dup_letters",
 ]
 
 step = st.fixed_dictionaries(
@@ -135,6 +135,23 @@ def run_history(desc):
             call = lambda: add.append(fd.FlodymArray.from_dims_superset(build.dimset(U), tuple(pick_letters(s["sel"]))))
         elif op == "superset_bad":
             call = lambda: fd.FlodymArray.from_dims_superset(build.dimset(U, al), tuple(al) + ("q",))
+            must_raise = True
+        elif op == "dup_letters":
+            # a selection that names the same dimension twice (by letter, or by letter and by name) can never be the
+            # dimension set of an array: every constructor has to refuse it
+            full = build.dimset(U)
+            l = allL[s["k"] % len(allL)]
+            m = allL[(s["k"] + 1) % len(allL)]
+            nm = build.udim(U, l)["name"]
+            sel = [(l, l), (l, nm), (l, m, l), (nm, l)][s["how"] % 4]
+            nvals = lambda: np.ones(tuple(len(items[x if x in items else l]) for x in sel))
+            call = [
+                lambda: add.append(fd.FlodymArray.from_dims_superset(full, sel)),
+                lambda: add.append(fd.FlodymArray(dims=full.get_subset(sel))),
+                lambda: add.append(fd.Parameter(dims=full[sel], values=nvals())),
+                lambda: add.append(fd.Flow(dims=full[sel], values=nvals(), from_process=fd.Process(name="p1", id=1), to_process=fd.Process(name="p2", id=2))),
+                lambda: add.append(fd.StockArray(dims=full.get_subset(sel), values=nvals())),
+            ][s["j"] % 5]
             must_raise = True
         elif op == "binop":
             o = ["+", "-", "*", "/", "min", "max"][s["k"] % 6]
